@@ -646,6 +646,7 @@ pub fn check(spec: &'static PropSpec, tier: Tier) -> i32 {
             "evaluations": runs,
             "distinct_nontrivial": nontrivial.len(),
             "distinct_event_logs": all.len(),
+            "event_log_digest": all.iter().fold(0u64, |a, h| a.wrapping_add(mix(*h, 0x10c))).to_string(),
             "rule": spec.rule,
             "samples": samples,
             "exhaustive": false,
